@@ -66,6 +66,7 @@ pub struct DeserStats {
     pub err_messages_set: BTreeSet<String>,
     pub distinct: u64,
     pub values_built_in_failed: u64,
+    pub mutator_panics: u64,
 }
 
 #[derive(Clone, Debug)]
@@ -833,7 +834,14 @@ pub fn run<G: ParRig>(seed: u64, worlds: usize, mutants_per_world: usize, exhaus
             }
             for _ in 0..mutants_per_world {
                 let n = 1 + rng.below(3);
-                let (inp, kinds) = mutate(&mut rng, &valid, n);
+                // a slip in a mutator must not take the whole shard down
+                let (inp, kinds) = match catch_unwind(AssertUnwindSafe(|| mutate(&mut rng, &valid, n))) {
+                    Ok(x) => x,
+                    Err(_) => {
+                        run.stats.mutator_panics += 1;
+                        continue;
+                    }
+                };
                 if inp.size() > 4 * valid.size() + 64 {
                     continue;
                 }
